@@ -284,6 +284,10 @@ func c07Eval(g c07Graph) *Case {
 func runC07(r *Run, replay *Case) {
 	gs := c07Graphs(r.Thorough() || replay != nil)
 	if replay != nil {
+		if replay.Input["op"] == "layoutdata" {
+			c07DataReplay(r, replay)
+			return
+		}
 		for _, g := range gs {
 			if g.desc == replay.Input["desc"] {
 				r.Add(c07Eval(g))
@@ -292,9 +296,10 @@ func runC07(r *Run, replay *Case) {
 		return
 	}
 	r.Res.Rule = "all layout graphs over {page, a, b, c} (each naming none or one of a/b/c) x layouts/base.vuego present/absent; chains of length 1,5,98,99,100,101,150; cycles of length 1-3; " +
-		"missing targets; relative vs layouts/ resolution; colliding data keys; non-trivial = every graph; exhaustive within the file set"
+		"missing targets; relative vs layouts/ resolution; colliding data keys; data stream: random graphs over page + 5 layouts with random front-matter, Fill data and config, " +
+		"every link printing three probe variables (model: Layout.dataLoop; oracle: own front-matter, page front-matter, Fill data, config); non-trivial = every graph; the graph stream is exhaustive within its file set"
 	for _, g := range gs {
 		r.Add(c07Eval(g))
 	}
-	r.Res.Exhaustive = true
+	c07DataStream(r)
 }
